@@ -64,7 +64,7 @@ def run_wire(v, tier, pred, plans):
     v.cov["rule"] = ("behaviours of Framing.tla (depth 12: handshakes good/bad/short, frames of size classes 0,1,3,5 x scale, oversize, huge "
                      "length, bad ipc type, truncation + disconnect, on up to 3 connections over tcp and ipc) x I/O clamps; distinct = "
                      "behaviour x (scale, clamp) runs")
-    v.assumptions += ["tcp and ipc only (socket-fd, websocket, inproc and udp are not driven); PUSH/PULL stand for all protocols: framing and "
-                      "negotiation live in the transports; raw-mode headers are not sent", "the I/O clamp hook sits in nni_aio_iov_clamp_len, "
-                      "which both posix_tcpconn.c and posix_ipcconn.c use for reads and writes",
+    v.assumptions += ["tcp, ipc and socket:// (websocket is driven by C16; inproc and udp are not driven); PUSH/PULL stand for all protocols: framing and "
+                      "negotiation live in the transports; raw-mode headers are not sent", "the I/O clamp hook sits in nni_aio_iov_clamp_len (posix_tcpconn.c, posix_ipcconn.c) "
+                      "and in posix_sockfd.c, for reads and writes",
                       "real time: the driver waits (bounded) for what the specification expects and 25 ms more for what it does not"]
